@@ -265,20 +265,23 @@ impl ISocket for SubSocket {
           "Sending existing subscriptions to newly attached peer."
         );
         if let Some(conn_iface) = self.get_endpoint(&endpoint_uri) {
-          for topic in current_topics {
-            let sub_msg = Self::construct_subscription_message(true, &topic);
-            if self
-              .send_subscription_command_via_iface(&conn_iface, &endpoint_uri, sub_msg)
-              .await
-              .is_err()
-            {
-              tracing::warn!(
-                handle = self.core.handle, uri = %endpoint_uri,
-                "Aborting subscription sync due to send error."
-              );
-              break;
+          // The session only starts draining this connection's pipe after SocketCore has sent it
+          // ScaInitializePipes, which happens when pipe_attached() has returned. Pushing the
+          // subscriptions from here would therefore wedge SocketCore for good as soon as there
+          // are more topics than the pipe holds (SNDHWM): do the initial sync from its own task.
+          let handle = self.core.handle;
+          tokio::spawn(async move {
+            for topic in current_topics {
+              let sub_msg = Self::construct_subscription_message(true, &topic);
+              if let Err(e) = conn_iface.send_message(sub_msg).await {
+                tracing::warn!(
+                  handle = handle, uri = %endpoint_uri, error = %e,
+                  "Aborting subscription sync due to send error."
+                );
+                break;
+              }
             }
-          }
+          });
         }
       }
     } else {
